@@ -31,6 +31,7 @@ type Ctx struct {
 	signers    map[string][]string
 	passed     map[*ssa.Function]bool
 	callers    map[*ssa.Function][]CallSite
+	byTermName map[string]*ssa.Function
 }
 
 type Edge struct {
@@ -656,3 +657,138 @@ func doDump(cx *Ctx, kind string) {
 }
 
 var dumps = map[string]func(cx *Ctx){}
+
+
+// termNameOf: the name a call to f carries in terms and facts (callName's format).
+func termNameOf(f *ssa.Function) string {
+	o := f
+	if f.Origin() != nil {
+		o = f.Origin()
+	}
+	pkg := funcPkgPath(o)
+	name := o.Name()
+	if o.Signature.Recv() != nil {
+		name = recvName(o) + "." + o.Name()
+	}
+	if s, ok := pkgShort[pkg]; ok {
+		return s + "." + name
+	}
+	if strings.HasPrefix(pkg, modPrefix) {
+		pkg = strings.TrimPrefix(pkg, modPrefix+"modules/")
+		pkg = strings.TrimPrefix(pkg, modPrefix)
+	} else if i := strings.LastIndex(pkg, "/"); i >= 0 {
+		pkg = pkg[i+1:]
+	}
+	if pkg == "" {
+		return name
+	}
+	return pkg + "." + name
+}
+
+// funcByTermName resolves the leading call name of a fact / term text to the irismod
+// function it denotes (nil when unknown or ambiguous).
+func (cx *Ctx) funcByTermName(name string) *ssa.Function {
+	if cx.byTermName == nil {
+		cx.byTermName = map[string]*ssa.Function{}
+		amb := map[string]bool{}
+		for _, f := range cx.P.AllFuncs {
+			if f.Blocks == nil || f.Parent() != nil || !isIrismodFunc(f) || f.Synthetic != "" {
+				continue
+			}
+			n := termNameOf(f)
+			if g, ok := cx.byTermName[n]; ok && g != f {
+				amb[n] = true
+			}
+			cx.byTermName[n] = f
+		}
+		for n := range amb {
+			delete(cx.byTermName, n)
+		}
+	}
+	return cx.byTermName[name]
+}
+
+// readsOnlyPrefix: everything f reaches is a store read, each of exactly the one prefix.
+func (cx *Ctx) readsOnlyPrefix(f *ssa.Function, prefix string) bool {
+	n := 0
+	for _, g := range cx.Reachable([]*ssa.Function{f}, nil).Order {
+		if g.Blocks == nil {
+			continue
+		}
+		for _, p := range cx.primsOf(g) {
+			switch p.Kind {
+			case "store.get", "store.has":
+				if len(p.Prefix) != 1 || p.Prefix[0] != prefix {
+					return false
+				}
+				n++
+			default:
+				return false
+			}
+		}
+	}
+	return n > 0
+}
+
+// absenceFact: among facts there is "no record under prefix for key argument arg":
+// a false boolean answer (or false found-flag) of a function that does nothing but
+// look the prefix up by that argument - GetX(k, arg)#1, HasX(k, arg).
+func (cx *Ctx) absenceFact(facts []FactT, prefix, arg string) bool {
+	for _, ft := range facts {
+		if ft.Holds || isOutcomeFact(ft.Text) || strings.HasPrefix(ft.Text, "(") {
+			continue
+		}
+		i := strings.Index(ft.Text, "(")
+		if i <= 0 {
+			continue
+		}
+		rest := ft.Text[i:]
+		if !(strings.HasSuffix(rest, ")") || strings.HasSuffix(rest, ")#1")) {
+			continue
+		}
+		inner := strings.TrimSuffix(strings.TrimSuffix(rest, "#1"), ")")[1:]
+		hasArg := false
+		for _, a := range splitTopLevel(inner) {
+			if strings.TrimSpace(a) == arg {
+				hasArg = true
+			}
+		}
+		if !hasArg {
+			continue
+		}
+		f := cx.funcByTermName(ft.Text[:i])
+		if f == nil {
+			continue
+		}
+		res := f.Signature.Results()
+		boolAt := func(k int) bool {
+			b, ok := res.At(k).Type().Underlying().(*types.Basic)
+			return ok && b.Kind() == types.Bool
+		}
+		okShape := (strings.HasSuffix(rest, ")#1") && res.Len() == 2 && boolAt(1)) || (strings.HasSuffix(rest, ")") && res.Len() == 1 && boolAt(0))
+		if okShape && cx.readsOnlyPrefix(f, prefix) {
+			return true
+		}
+	}
+	return false
+}
+
+// splitTopLevel splits a comma-separated argument text at depth 0.
+func splitTopLevel(s string) []string {
+	var out []string
+	depth, start := 0, 0
+	for i, r := range s {
+		switch r {
+		case '(', '[', '{':
+			depth++
+		case ')', ']', '}':
+			depth--
+		case ',':
+			if depth == 0 {
+				out = append(out, s[start:i])
+				start = i + 1
+			}
+		}
+	}
+	return append(out, s[start:])
+}
